@@ -343,7 +343,7 @@ func init() {
 		},
 		Subs: []h.Sub{
 			{
-				Name: "rings", Count: h.Fixed(30000, 3000000),
+				Name: "rings", Count: h.Fixed(30000, 6000000),
 				Run: func(c *h.Ctx, idx uint64, r *h.Rand) {
 					ring, kind := c08genRing(r)
 					half := kind != "star" && kind != "arbitrary-float" || r.P(1, 3)
@@ -391,7 +391,7 @@ func init() {
 				},
 			},
 			{
-				Name: "polygons", Count: h.Fixed(6000, 600000),
+				Name: "polygons", Count: h.Fixed(6000, 1500000),
 				Run: func(c *h.Ctx, idx uint64, r *h.Rand) {
 					snap := 0.0
 					if r.Bool() {
@@ -522,7 +522,7 @@ func init() {
 				},
 			},
 			{
-				Name: "collections-and-layers", Count: h.Fixed(4000, 300000),
+				Name: "collections-and-layers", Count: h.Fixed(4000, 1000000),
 				Run: func(c *h.Ctx, idx uint64, r *h.Rand) {
 					box := c08box(r, 0, 12, r.Bool())
 					b := boundOf(box[0], box[1], box[2], box[3])
